@@ -180,7 +180,7 @@ def through_config(_):
         # contexts nested two levels deep, every `uses` path with a placeholder
         (root / 'c3.json').write_text(json.dumps({'deep': '{B}-deep'}))
         (root / 'c2.json').write_text(json.dumps({'mid': '{A}-mid', 'uses': ['{ROOT}/c3.json as m']}))
-        (root / 'c1.json').write_text(json.dumps({'topc': 1, 'uses': ['{ROOT}/c2.json as n']}))
+        (root / 'c1.json').write_text(json.dumps({'topc': 1, 'uses': '{ROOT}/c2.json as n'}))    # (a single string, not a list)
         gv2 = dict(gv, ROOT=str(root))
         (root / 'plain2.json').write_text(json.dumps({'tasks': []}))
         (root / 'plain.json').write_text(json.dumps({'tasks': [], 'uses': [f'{root}/plain2.json as m']}))
